@@ -222,24 +222,25 @@ type Mismatch struct {
 }
 
 type Outcome struct {
-	Class      string     `json:"class"` // "" ok, race, result, history, input_modified, compile
-	Detail     string     `json:"detail,omitempty"`
-	Mismatches []Mismatch `json:"mismatches,omitempty"`
-	RaceText   string     `json:"race_text,omitempty"`
-	Races      []RaceSig  `json:"races,omitempty"`
-	Steps      int64      `json:"steps"`
-	Switches   int        `json:"switches"`
-	Preempts   int        `json:"preempts"` // switches that were not caused by a worker finishing
-	Forced     int        `json:"forced_fired"`
-	OverBudget bool       `json:"over_budget,omitempty"`
-	Pool       simrt.PoolStats
-	Strategy   string
-	SchedHash  uint64
-	Visits     []uint32 `json:"-"`
-	EstSteps   int64
-	LogHash    uint64   // hash of everything observable about the run (determinism self-test)
-	HistFuncs  []string `json:"history_funcs,omitempty"` // cache-full handling functions entered in the reference pass or the concurrent phase
-	Diverged   int      // mismatches explained by a pure engine/configuration divergence
+	Class           string     `json:"class"` // "" ok, race, result, history, input_modified, compile
+	Detail          string     `json:"detail,omitempty"`
+	Mismatches      []Mismatch `json:"mismatches,omitempty"`
+	RaceText        string     `json:"race_text,omitempty"`
+	Races           []RaceSig  `json:"races,omitempty"`
+	Steps           int64      `json:"steps"`
+	Switches        int        `json:"switches"`
+	Preempts        int        `json:"preempts"` // switches that were not caused by a worker finishing
+	Forced          int        `json:"forced_fired"`
+	OverBudget      bool       `json:"over_budget,omitempty"`
+	Pool            simrt.PoolStats
+	Strategy        string
+	SchedHash       uint64
+	Visits          []uint32 `json:"-"`
+	EstSteps        int64
+	LogHash         uint64   // hash of everything observable about the run (determinism self-test)
+	HistFuncs       []string `json:"history_funcs,omitempty"` // cache-full handling functions entered in the reference pass or the concurrent phase
+	Diverged        int      // mismatches explained by a pure engine/configuration divergence
+	PrefilterMisses bool     `json:"prefilter_misses_match,omitempty"` // see history.go prefilterMissesMatch
 }
 
 func trunc(s string, n int) string {
@@ -401,6 +402,9 @@ func runConc(sc *Scenario, st *SiteTable, raceLog *raceLogReader) *Outcome {
 				fr := execOp(fresh, &sc.Workers[w][i], hb, hs)
 				if got[w][i] == fr {
 					// the reference value drifted, not the concurrent one: history dependence
+					if prefilterMissesMatch(sc.Pattern, sc.Knobs, hb[sc.Workers[w][i].H]) {
+						out.PrefilterMisses = true
+					}
 					out.Mismatches = append(out.Mismatches, Mismatch{w, i, sc.Workers[w][i], trunc(got[w][i], 300), trunc(want[w][i], 300), trunc(fr, 300)})
 					if out.Class == "" {
 						out.Class = "history"
@@ -413,6 +417,9 @@ func runConc(sc *Scenario, st *SiteTable, raceLog *raceLogReader) *Outcome {
 					// (NFA only / default): a pure divergence between engines, not interference
 					out.Diverged++
 					continue
+				}
+				if prefilterMissesMatch(sc.Pattern, sc.Knobs, hb[sc.Workers[w][i].H]) {
+					out.PrefilterMisses = true
 				}
 				out.Mismatches = append(out.Mismatches, Mismatch{w, i, sc.Workers[w][i], trunc(got[w][i], 300), trunc(want[w][i], 300), trunc(fr, 300)})
 				if out.Class == "" || out.Class == "history" {
